@@ -172,22 +172,21 @@ concat = Fn(F, "concat", impl="BigInt", ret="res", props=["C05", "C03", "C19"],
                 C("unsigned_result", "0 <= res.val() < pow2((%s + %s) as nat)" % (LS, RS), ["C05"]),
             ],
             loops={
-                1: Loop(invariant=[
+                "for i in 0..(lhs_slice.0 - lhs_slice.1)": Loop(invariant=[
                     C("bits", "forall|j: nat| #[trigger] bit_of(result.val(), j) == (%s <= j < %s + i && bit_of(self.val(), (lhs_slice.1 + j - %s) as nat))" % (RS, RS, RS)),
                     C("sizes", "lhs_size == %s && rhs_size == %s && lhs_size + rhs_size <= usize::MAX && lhs_slice.0 >= lhs_slice.1" % (LS, RS)),
-                ]),
-                2: Loop(invariant=[
+                ], before="        proof { assert forall|j: nat| !bit_of(0, j) by { lemma_bit_of_zero(j); } }",
+                   body_start="            let ghost prev = result.val();",
+                   body_end="            proof { let at = (i + rhs_size) as nat; lemma_set_bit_get(prev, at, true, at); lemma_set_bit_get(prev, at, false, at); assert forall|j: nat| #[trigger] bit_of(result.val(), j) == (if j == at { bit_of(result.val(), at) } else { bit_of(prev, j) }) by { lemma_set_bit_get(prev, at, true, j); lemma_set_bit_get(prev, at, false, j); } }"),
+                "for i in 0..(rhs_slice.0 - rhs_slice.1)": Loop(invariant=[
                     C("bits", "forall|j: nat| #[trigger] bit_of(result.val(), j) == (if j < %s { j < i && bit_of(rhs.val(), (rhs_slice.1 + j) as nat) }"
                               " else { j < %s + %s && bit_of(self.val(), (lhs_slice.1 + j - %s) as nat) })" % (RS, LS, RS, RS)),
                     C("sizes", "lhs_size == %s && rhs_size == %s" % (LS, RS)),
-                ]),
+                ], body_start="            let ghost prev = result.val();",
+                   body_end="            proof { let at = i as nat; lemma_set_bit_get(prev, at, true, at); lemma_set_bit_get(prev, at, false, at); assert forall|j: nat| #[trigger] bit_of(result.val(), j) == (if j == at { bit_of(result.val(), at) } else { bit_of(prev, j) }) by { lemma_set_bit_get(prev, at, true, j); lemma_set_bit_get(prev, at, false, j); } }"),
             },
+            rewrites=GENERIC_R3,
             inserts=[
-                Insert("        for i in 0..(lhs_slice.0 - lhs_slice.1)", "        proof { assert forall|j: nat| !bit_of(0, j) by { lemma_bit_of_zero(j); } }\n", where="before"),
-                Insert("            result.set_bit(", "            let ghost prev = result.val();\n", where="before", occ=1),
-                Insert("                self.get_bit(lhs_slice.1 + i));", "\n            proof { let b = bit_of(self.val(), (lhs_slice.1 + i) as nat); assert forall|j: nat| #[trigger] bit_of(result.val(), j) == bit_of(set_bit_spec(prev, (i + rhs_size) as nat, b), j) by {}; assert forall|j: nat| #[trigger] bit_of(set_bit_spec(prev, (i + rhs_size) as nat, b), j) == (if j == i + rhs_size { b } else { bit_of(prev, j) }) by { lemma_set_bit_get(prev, (i + rhs_size) as nat, b, j); } }\n", where="after"),
-                Insert("            result.set_bit(", "            let ghost prev = result.val();\n", where="before", occ=2),
-                Insert("                rhs.get_bit(rhs_slice.1 + i));", "\n            proof { let b = bit_of(rhs.val(), (rhs_slice.1 + i) as nat); assert forall|j: nat| #[trigger] bit_of(set_bit_spec(prev, i as nat, b), j) == (if j == i { b } else { bit_of(prev, j) }) by { lemma_set_bit_get(prev, i as nat, b, j); } }\n", where="after"),
                 Insert("        result.size = Some(lhs_size + rhs_size);", "        proof { lemma_bits_bound(result.val(), (lhs_size + rhs_size) as nat); }\n", where="before"),
             ])
 
